@@ -60,6 +60,10 @@ pub struct Behaviour {
     /// (2-byte prefix + payload) cut into separate data frames at these positions, with this pause
     /// between the frames
     pub uot_echo: Option<(Vec<u16>, u64)>,
+    /// every stream is refused: SYNACK carries this text
+    pub synack_error: Option<Vec<u8>>,
+    /// the connection is closed as soon as a SYN arrives (the session dies while the opener waits)
+    pub close_on_syn: bool,
 }
 
 #[derive(Default, Debug)]
@@ -186,6 +190,9 @@ async fn serve(tls: &mut tokio_rustls::server::TlsStream<TcpStream>, password: &
                     log.lock().unwrap().settings = m;
                 }
                 rc::SYN => {
+                    if beh.close_on_syn {
+                        return Ok(());
+                    }
                     streams.insert(f.sid, (Vec::new(), false));
                 }
                 rc::PSH => {
@@ -201,7 +208,9 @@ async fn serve(tls: &mut tokio_rustls::server::TlsStream<TcpStream>, password: &
                                     let dest = acc[..k].to_vec();
                                     data = acc[k..].to_vec();
                                     log.lock().unwrap().dests.push((f.sid, dest));
-                                    if beh.synack {
+                                    if let Some(text) = &beh.synack_error {
+                                        outgoing.push(RFrame::new(rc::SYNACK, f.sid, text.clone()));
+                                    } else if beh.synack {
                                         outgoing.push(RFrame::ctl(rc::SYNACK, f.sid));
                                     }
                                 }
